@@ -380,6 +380,12 @@ func (w *World) dissolvedInto(p *ssa.Package, mn string) *ssa.Function {
 	if nCallee != 1 || len(callers) != 1 {
 		return nil
 	}
+	return w.hostNamed(p, mn, callers[0], 0)
+}
+
+// hostNamed: the declared function with the given full name, or - when that one was dissolved as well - its own host.
+func (w *World) hostNamed(p *ssa.Package, mn, full string, depth int) *ssa.Function {
+	callers := []string{full}
 	for _, fn := range w.ModuleFuncs() {
 		if fn.Parent() != nil || fn.Synthetic != "" {
 			continue
@@ -390,6 +396,12 @@ func (w *World) dissolvedInto(p *ssa.Package, mn string) *ssa.Function {
 			}
 			w.Dissolved[p.Pkg.Path()+"."+mn] = callers[0]
 			return fn
+		}
+	}
+	// the only user is gone too: where did it go?
+	if depth < 3 {
+		if cs := baselineCallersCache[full]; len(cs) == 1 {
+			return w.hostNamed(p, mn, cs[0], depth+1)
 		}
 	}
 	return nil
